@@ -241,12 +241,14 @@ let parse_rscript t : rev0 list =
   let n = next_int t in
   parse_list t (fun t -> match next t with
     | "p" -> RPending | "e" -> REof | "x" -> RErr
+    | s when String.length s >= 2 && String.sub s 0 2 = "t:" -> RPending
     | s when String.length s >= 2 && String.sub s 0 2 = "c:" -> RChunk (bytes_of_tok ("x" ^ String.sub s 2 (String.length s - 2)))
     | s -> raise (Parse ("rev " ^ s))) n
 let parse_wscript t : wev list =
   let n = next_int t in
   parse_list t (fun t -> match next t with
     | "p" -> WPending | "x" -> WErr
+    | s when String.length s >= 2 && String.sub s 0 2 = "t:" -> WPending
     | s when String.length s >= 2 && String.sub s 0 2 = "a:" -> WAccept (n_of_hex (String.sub s 2 (String.length s - 2)))
     | s -> raise (Parse ("wev " ^ s))) n
 
@@ -440,7 +442,9 @@ let handle (line : string) : string =
        Buffer.add_string b " SPEC "; Buffer.add_string b (tok_of_bytes (spec_msg sm))
    | "SPEC" ->
        let m = parse_msg t in
-       Buffer.add_string b "SPEC "; Buffer.add_string b (tok_of_bytes (spec_msg (abs_msg m)))
+       Buffer.add_string b "SPEC "; Buffer.add_string b (tok_of_bytes (spec_msg (abs_msg m)));
+       Buffer.add_string b " WD "; Buffer.add_string b (bool01 (msg_wireb m));
+       Buffer.add_string b " NOMM "; Buffer.add_string b (bool01 (List.for_all nommb m.m_avps))
    | "UTF8" ->
        let bs = next_bytes t in Buffer.add_string b (bool01 (utf8_valid bs))
    | "LEAFDEC" ->
